@@ -86,6 +86,12 @@ def groupByKey {α} (key : α → Int) : List α → List (List α)
 
 def spanLen (s : Span) : Int := s.2.1 - s.1
 
+/-- `new_max_len = span_len - 1; if max_len is not None: new_max_len = min(max_len, new_max_len)` -/
+def newMaxLen (maxLen : Option Int) (len : Int) : Int :=
+  match maxLen with
+  | none => len - 1
+  | some m => min m (len - 1)
+
 /-- the per-group loop of `_grouped_left_semi_span_builder` (`brk` chooses `<=` vs `<`) -/
 def groupLoop (build : Span → Option Int → Option Int → List Span) (strictBreak : Bool)
     (minLen : Int) (maxLen : Option Int) : List Span → List Span
@@ -94,9 +100,7 @@ def groupLoop (build : Span → Option Int → Option Int → List Span) (strict
     let len := spanLen span
     if (if strictBreak then len < minLen else len ≤ minLen) then []
     else
-      let newMax := match maxLen with
-        | none => len - 1
-        | some m => min m (len - 1)
+      let newMax := newMaxLen maxLen len
       match rest with
       | [] => build span (some minLen) (some newMax)
       | next :: _ =>
